@@ -16,7 +16,43 @@ fn raw(tier: Tier) -> proptest::strategy::BoxedStrategy<Raw> {
 
 /// knob 0: ending mode. 0 = wait until every follow-up was notified, then stop (quiescent);
 /// 1 = stop right after the last dispatch (backlog); 2 = a racing stop thread.
+/// "A slow effect neither delays nor breaks later actions": three effects park on workers until the
+/// follow-up of a *later* action's Effect::Action has been reduced and notified. With a pool that
+/// has room for them and one more (the crate's default: twice the number of CPUs) nothing waits for
+/// anything; a store that cannot run a fourth effect while three are busy never gets there. (Only
+/// generated on machines with >= 4 CPUs; the schedule-controlled stand-in pool is unbounded.)
+fn parked_effects(raw: &Raw) -> Scenario {
+    let mut b = ScnB::new();
+    let s = b.store("c11a", 16, Pol::Block, CTORS[pick(knob(raw, 4), 3)].clone());
+    let reds = vec![b.reducer(s), b.reducer(s)];
+    let sub = b.sub(SubKind::Direct);
+    b.s.prelude.push(Op::Subscribe { store: s, sub });
+    let fg = b.gate();
+    let th = b.thread();
+    for i in 0..3 {
+        let a = b.action(s, i as u8);
+        let kind = if (knob(raw, 5) >> i) & 1 == 0 { EffKind::Task } else { EffKind::Function };
+        let mut e = b.eff(kind, false, Stall::None);
+        e.ops = vec![Op::GateAwait { gate: fg, entered: 1 }];
+        b.act_mut(a).effects.push((reds[i % 2], e));
+        b.s.threads[th].push(Op::Dispatch { act: a, via: VIAS[(knob(raw, 6) as usize + i) % 3] });
+    }
+    let bact = b.action(s, 3);
+    let f = b.action(s, 0);
+    b.act_mut(f).signal = Some(fg);
+    let e = b.eff(EffKind::Action(f), false, Stall::None);
+    b.act_mut(bact).effects.push((reds[0], e));
+    b.s.threads[th].push(Op::Dispatch { act: bact, via: Via::Inherent });
+    b.s.epilogue.push(Op::GateAwait { gate: fg, entered: 1 });
+    b.s.epilogue.push(Op::Stop { store: s, via_trait: false });
+    b.s.epilogue.push(Op::GetState { store: s });
+    b.finish()
+}
+
 pub fn build(raw: &Raw, _tier: Tier, _sched: bool) -> Scenario {
+    if knob(raw, 13) % 8 == 0 && std::thread::available_parallelism().map(|n| n.get() >= 4).unwrap_or(false) {
+        return parked_effects(raw);
+    }
     let mut b = ScnB::new();
     let mode = knob(raw, 0) % 3;
     let two_stores = knob(raw, 1) % 3 == 0;
@@ -70,6 +106,13 @@ pub fn build(raw: &Raw, _tier: Tier, _sched: bool) -> Scenario {
                             let e = effs[(r.c as usize >> 4) % effs.len()];
                             b.act_mut(a).removes.push((*mw, vec![e]));
                         }
+                    }
+                    // a middleware may also *add* an effect of its own in before_effect (the store
+                    // runs whatever is left in the list; nothing of the reducers' may get lost over it)
+                    if !mws.is_empty() && (r.c >> 14) & 1 == 1 {
+                        let e = b.eff(EffKind::Task, false, Stall::None);
+                        let mw = mws[(r.c as usize >> 8) % mws.len()];
+                        b.act_mut(a).adds.push((mw, e));
                     }
                     let follow: Vec<ActId> = b.s.actions[a as usize]
                         .effects
@@ -287,7 +330,7 @@ pub fn check(scn: &Scenario, h: &History) -> Outcome {
 
 pub static PROFILE: Profile = Profile {
     id: "C11",
-    rule: "proptest scenarios: 1-3 producers, 1-2 stores (blocking policy), chains of 2-3 reducers returning Task / Function / Thunk (1-2 follow-ups) / Action effects, up to two effects per action, panicking effects, before_effect removal masks, client dispatch_thunk / dispatch_task; ending either quiescent (all follow-up notifications awaited), with a backlog, or with a racing stop; in half of the cases a task and a thunk are handed to each store after its stop() has returned (they must not run). Oracle O-EFFECT: run count and thread of every scripted effect, follow-ups in the producing store's pipeline after their producer, nothing after Ret(stop). Non-trivial = >= 2 effect kinds, >= 1 action with >= 2 effects and a panicking effect or a follow-up action; distinct by scenario hash.",
+    rule: "proptest scenarios: 1-3 producers, 1-2 stores (blocking policy), chains of 2-3 reducers returning Task / Function / Thunk (1-2 follow-ups) / Action effects, up to two effects per action, panicking effects, before_effect removal masks and middleware-added effects, verdicts in the later phases, client dispatch_thunk / dispatch_task; ending either quiescent (all follow-up notifications awaited), with a backlog, or with a racing stop; in half of the cases a task and a thunk are handed to each store after its stop() has returned (they must not run); an eighth of the cases park three effects on workers until a later action's Effect::Action follow-up has been notified. Oracle O-EFFECT: run count and thread of every scripted effect, follow-ups in the producing store's pipeline after their producer, nothing after Ret(stop). Non-trivial = >= 2 effect kinds, >= 1 action with >= 2 effects and a panicking effect or a follow-up action; distinct by scenario hash.",
     raw,
     build,
     check,
